@@ -904,7 +904,7 @@ def gen_c19(ch, spec):
         # systematic sweep: the run index *is* the close point (every `stride`-th scheduler step of one scenario)
         cfg["close_k"] = run * spec["sweep"]["stride"] + spec["sweep"].get("offset", 0)
     cfg["who"] = ch.choice("cfg", ["A", "B", "A", "B", "both", "A-twice", "B-twice", "vanish-B-close-A", "vanish-A-close-B",
-                                   "both-staggered"])
+                                   "both-staggered", "vanish-B-failed-close-A", "vanish-A-failed-close-B"])
     if spec.get("sweep"):
         cfg["who"] = spec["sweep"]["who"]
     cfg["stagger"] = ch.choice("cfg", [1, 3, 20, 200])
@@ -1070,13 +1070,23 @@ class C19World(C03World):
                     if c.node == gone:
                         c.vanish()
                 self.probes["remote_vanished"] += 1
-                self._second = (closer, self.loop.steps + self.cfg["stagger"] * 50)
+                if "-failed-" in who:
+                    # close once the survivor has noticed (consent expired, ICE failed), a few steps later
+                    self._second = (closer, None)
+                else:
+                    self._second = (closer, self.loop.steps + self.cfg["stagger"] * 50)
         except Exception as exc:  # noqa
             self.harness_note(exc)
 
     def hook2(self):
         self.hook()
         sec = getattr(self, "_second", None)
+        if sec is not None and sec[1] is None:
+            # (aiortc closes the connection by itself once every DTLS transport has closed: "failed" is a short window)
+            if self.ep[sec[0]].pc.iceConnectionState in ("failed", "closed"):
+                sec = self._second = (sec[0], self.loop.steps + self.cfg["stagger"])
+            else:
+                return
         if sec is not None and self.loop.steps >= sec[1]:
             self._second = None
             try:
@@ -1092,7 +1102,8 @@ class C19World(C03World):
         self.phase = "run"
         scen = self.loop.create_task(self.scenario())
         # wait for the injected close(s) to be issued (the scenario may end first: then close at the end)
-        await self.wait_for(lambda: bool(self.closing) or scen.done(), 120.0, poll=0.05)
+        await self.wait_for(lambda: bool(self.closing) or (scen.done() and getattr(self, "_second", None) is None),
+                            120.0, poll=0.05)
         if not self.closing:
             self._fired = True
             who = self.cfg["who"]
